@@ -274,6 +274,8 @@ def _merge_objs(objs):
             o.fields[n] = first
         else:
             o.fields[n] = mk_union(vals)
+    if o.kind == "list" and any(ob.kind == "alist" for _, ob in objs):
+        raise Unsupported("merge of list and array-list")
     if o.kind == "list":
         if all(ob.items is not None for _, ob in objs):
             lens = {len(ob.items) for _, ob in objs}
@@ -308,6 +310,9 @@ def _merge_objs(objs):
         o.sym = dict(o.sym)
         o.sym["has"] = _ite_term([(g, ob.sym["has"]) for g, ob in objs])
         o.sym["val"] = _ite_term([(g, ob.sym["val"]) for g, ob in objs])
+    if o.kind == "alist":
+        o.arr = _ite_term([(g, ob.arr) for g, ob in objs])
+        o.n = _ite_term([(g, ob.n) for g, ob in objs])
     if o.kind == "barray":
         o.arr = _ite_term([(g, ob.arr) for g, ob in objs])
         o.n = _ite_term([(g, ob.n) for g, ob in objs])
